@@ -428,6 +428,45 @@ pub fn run_fixed(eng: &mut Eng, time_only: bool) {
                         (In::P, In::P) => Exp::some(f(12.0, 3.0).bits(), vec![tmax]),
                     }
                 };
+                // the same live object read again after ONE aspect of ONE input changed (only b's
+                // timestamp; then only a's value): a stateless combinator is a function of what its
+                // inputs return now
+                if c0 == In::P && c1 == In::P {
+                    let t1b = if t1 < i64::MAX - 1000 { t1 + 1000 } else { t1 - 1000 };
+                    macro_rules! reread {
+                        ($ty:ident, $name:expr, $f:expr) => {{
+                            let f: fn(f32, f32) -> f32 = $f;
+                            let g = guard(|| {
+                                let m = $ty::new(rf(&a), rf(&b));
+                                let o0 = obs(&m.get());
+                                b.borrow_mut().next = mk(c1, t1b, 3.0f32);
+                                let o1 = obs(&m.get());
+                                a.borrow_mut().next = mk(c0, t0, 13.0f32);
+                                let o2 = obs(&m.get());
+                                a.borrow_mut().next = mk(c0, t0, 12.0f32);
+                                b.borrow_mut().next = mk(c1, t1, 3.0f32);
+                                let o3 = obs(&m.get());
+                                [o0, o1, o2, o3]
+                            });
+                            a.borrow_mut().next = mk(c0, t0, 12.0f32);
+                            b.borrow_mut().next = mk(c1, t1, 3.0f32);
+                            match g {
+                                Ok(o) => {
+                                    j.check(concat!($name, "-reread"), &case, Ok([o[0], o[0], o[0]]), &Exp::some(f(12.0, 3.0).bits(), vec![tmax]), 2);
+                                    j.check(concat!($name, "-reread"), &|| format!("{} then input 2 restamped {}", case(), t1b), Ok([o[1], o[1], o[1]]), &Exp::some(f(12.0, 3.0).bits(), vec![t0.max(t1b)]), 2);
+                                    j.check(concat!($name, "-reread"), &|| format!("{} then input 2 restamped {} and input 1 now 13", case(), t1b), Ok([o[2], o[2], o[2]]), &Exp::some(f(13.0, 3.0).bits(), vec![t0.max(t1b)]), 2);
+                                    j.check(concat!($name, "-reread"), &|| format!("{} after two changes were undone", case()), Ok([o[3], o[3], o[3]]), &Exp::some(f(12.0, 3.0).bits(), vec![tmax]), 2);
+                                }
+                                Err(m) => j.check(concat!($name, "-reread"), &case, Err(m), &Exp::none(), 2),
+                            }
+                        }};
+                    }
+                    reread!(Sum2, "sum2", |x, y| x + y);
+                    reread!(Product2, "product2", |x, y| x * y);
+                    reread!(DifferenceStream, "difference", |x, y| x - y);
+                    reread!(QuotientStream, "quotient", |x, y| x / y);
+                    reread!(ExponentStream, "exponent", |x, y| crate::refmodels::backend_powf(x, y));
+                }
                 j.check("difference-beside-another", &case, beside!(DifferenceStream), &exp3(|x, y| x - y), 2);
                 j.check("quotient-beside-another", &case, beside!(QuotientStream), &exp3(|x, y| x / y), 2);
                 j.check("exponent-beside-another", &case, beside!(ExponentStream), &exp3(|x, y| crate::refmodels::backend_powf(x, y)), 2);
